@@ -88,6 +88,53 @@ def run_pool(name, tier, d):
     return merged, summ, crashed
 
 
+HAND_DFS = [  # (layout, stacks, blinds ante/dealer/sb/bb, decks)
+    ("std2", "3,4;1,1;2,5;5,2", "0,0,1,2", "rand,0-1,1-0,tieall"),
+    ("std2", "4,3;2,2", "1,0,1,2", "rand,1-0"),
+    ("std3", "3,4,2;1,2,3;2,2,2", "0,0,1,2", "rand,0-1-2,2-0-0,tieall,3-1-3"),
+    ("std3", "3,5,4", "1,1,0,2", "rand,2-1-0"),
+    ("std3", "2,3,2", "0,0,0,2", "rand"),
+    ("deadsb3", "3,4,2;2,2,5", "0,0,1,2", "rand,0-1-2"),
+    ("deadbtn3", "3,4,2;5,2,3", "1,0,1,2", "rand,2-2-0"),
+    ("std4", "2,3,4,3", "0,2,1,2", "rand,3-2-1-0"),
+    ("twodealer", "3,2,4,3", "0,0,1,2", "rand"),
+]
+HAND_DFS_THOROUGH = [
+    ("std3", "5,9,7;6,3,8", "0,0,1,2", "rand,0-1-2,2-0-0"),
+    ("std3", "3,5,4", "0,0,0,2", "rand"),
+    ("std4", "3,4,5,2;2,2,6,3", "1,0,1,2", "rand,0-1-2-3,3-3-1-0"),
+    ("std5", "2,3,2,3,2;3,1,4,2,5", "0,0,1,2", "rand,4-3-2-2-0"),
+    ("deadbtn4", "3,2,4,3;4,4,2,5", "1,0,1,2", "rand"),
+]
+
+
+def run_hand_dfs(tier, d):
+    jobs = HAND_DFS + (HAND_DFS_THOROUGH if tier == "thorough" else [])
+    files, summ = [], {"scenarios": 0, "lines": 0, "states": 0}
+
+    def run(ij):
+        i, (lay, st, bl, dk) = ij
+        out = os.path.join(d, "handdfs-%02d.ndjson" % i)
+        p = subprocess.run([VH, "hand-dfs", "--layout", lay, "--stacks", st, "--blinds", bl, "--decks", dk, "--out", out, "--tr", str(i * 100 + 1)],
+                           capture_output=True, text=True, timeout=3000, env=GOENV)
+        if p.returncode != 0:
+            raise Inconclusive("vh hand-dfs failed: " + p.stderr[-500:])
+        return out, json.loads([l for l in p.stdout.splitlines() if l.startswith("{")][-1])
+    with ThreadPoolExecutor(max_workers=8) as ex:
+        for out, s in ex.map(run, enumerate(jobs)):
+            files.append(out)
+            summ["lines"] += s["lines"]
+            summ["states"] += s["states"]
+            summ["scenarios"] += 1
+    merged = os.path.join(d, "handdfs.ndjson")
+    with open(merged, "wb") as g:
+        for f in files:
+            with open(f, "rb") as h:
+                shutil.copyfileobj(h, g)
+            os.remove(f)
+    return merged, summ
+
+
 def family(tier):
     """Run (or reuse) all pools + TLC verdicts. Returns (dir, {pool: {"file","tr","summary","crashed"}})."""
     build_harness()
@@ -106,6 +153,13 @@ def family(tier):
         tr = tlc_trace("TableTrace.tla", "TableTrace.cfg", path, timeout=3000, parts=14, by_trace=True)
         res[name] = {"file": path, "summary": summ, "crashed": [c[1] for c in crashed], "lines": tr["lines"],
                      "viol": tr["viol"], "drive_tlc_wall_s": round(time.time() - t0, 1)}
+    t0 = time.time()
+    path, summ = run_hand_dfs(tier, cdir)
+    tr = tlc_trace("HandTrace.tla", "HandTrace.cfg", path, timeout=3000, parts=14)
+    res["hand-dfs"] = {"file": path, "summary": summ, "crashed": [], "lines": tr["lines"], "viol": tr["viol"], "drift": len(tr["drift"]),
+                       "drive_tlc_wall_s": round(time.time() - t0, 1)}
+    if tr["drift"]:
+        log("DRIFT hand-dfs: %d transitions of the real game backend differ from HandRules!Apply, e.g. line %s" % (len(tr["drift"]), tr["drift"][0]))
     json.dump(res, open(meta, "w"))
     return cdir, res
 
@@ -138,7 +192,7 @@ def sample_lines(path, want=2):
 
 
 TABLE_PROPS = {
- "C01": (["C01_"], []),
+ "C01": (["C01_"], []),  # incl. C01_hand* clauses judged on the real backend's transition system
  "C02": (["C02_"], []),
  "C03": (["C03_"], ["sm"]),
  "C05": (["C05_"], ["sm"]),
@@ -152,13 +206,19 @@ TABLE_PROPS = {
  "C15": (["C15_"], []),
 }
 
-# models that carry each property (spec, cfg, timeout); filled in as the specs grow
-MODELS = {}
+# models that carry each property (spec, cfg, timeout)
+_HAND_Q = [("HandMC.tla", c, 600) for c in ("Hand_2p.cfg", "Hand_2p_ante.cfg", "Hand_3p.cfg", "Hand_3p_deadsb.cfg", "Hand_3p_deadbtn.cfg")]
+_HAND_T = _HAND_Q + [("HandMC.tla", c, 1800) for c in ("Hand_3p_dealerblind.cfg", "Hand_3p_nosb.cfg", "Hand_4p.cfg")]
+MODELS = {
+ "C01": {"quick": _HAND_Q, "thorough": _HAND_T},
+ "C10": {"quick": _HAND_Q, "thorough": _HAND_T},
+ "C11": {"quick": _HAND_Q, "thorough": _HAND_T},
+}
 
 
 def run_models(ck, prop, tier):
     for spec, cfg, to in MODELS.get(prop, {}).get(tier, MODELS.get(prop, {}).get("quick", [])):
-        r = tlc_mc(spec, cfg, timeout=to, workers=8)
+        r = tlc_mc(spec, cfg, timeout=to, workers=4)
         require_mc(r, spec + "/" + cfg)
         ck.add_model(r, "exhaustive model check")
 
